@@ -26,7 +26,11 @@ def cmdTiming (j : Json) : Except String Json := do
     | .ok v =>
       let d := (jNat v).toOption.getD 0
       match n.op with
-      | .mread _ => d
+      | .mread mid =>
+        -- the 'm' delay function receives the memory: `mdelays` (optional) gives the delay per memory id
+        match (fieldD j "mdelays" (Json.mkObj [])).getObjVal? (toString mid) with
+        | .ok mv => (jNat mv).toOption.getD d
+        | .error _ => d
       | _ => if d = 0 || wmod = 0 then d else d + b.width (n.args.headD 0) % wmod
     | .error _ => 0
   let t := timingMap δ comb
